@@ -19,7 +19,7 @@ use std::time::{Duration, Instant};
 
 const TIMEOUTS: [Option<u64>; 5] = [Some(0), Some(5), Some(40), Some(200), None];
 const TIMERS: [&str; 8] = ["none", "earlier", "equal", "later", "expired", "one-hour", "unrepresentable", "earlier-rearmed-from-unrepresentable"];
-const POPS: [&str; 16] = ["sync-channel-drained-exactly-at-its-bound", "rendezvous-channel-after-refused-try_send", "channel-1024-messages-delivered", "lifecycle-source-slow-before-sleep", "signals-interrupt-the-wait", "lifecycle-source-slow-before-sleep-and-signals", "self-removed-source-whose-slot-was-reused", "empty", "ping-live-handle", "ping-all-handles-gone", "channel-all-senders-gone", "empty-executor", "generic-level-not-ready", "generic-empty-interest-ready", "fired-oneshot-still-ready", "disabled-sources-with-pending-readiness"];
+const POPS: [&str; 18] = ["expired-timer-removed-before-any-dispatch", "armed-timer-rearmed-into-the-past-then-removed", "sync-channel-drained-exactly-at-its-bound", "rendezvous-channel-after-refused-try_send", "channel-1024-messages-delivered", "lifecycle-source-slow-before-sleep", "signals-interrupt-the-wait", "lifecycle-source-slow-before-sleep-and-signals", "self-removed-source-whose-slot-was-reused", "empty", "ping-live-handle", "ping-all-handles-gone", "channel-all-senders-gone", "empty-executor", "generic-level-not-ready", "generic-empty-interest-ready", "fired-oneshot-still-ready", "disabled-sources-with-pending-readiness"];
 
 struct Cell_ {
     timeout: Option<u64>,
@@ -101,6 +101,29 @@ fn measure(c: &Cell_) -> Measured {
     match c.pop {
         _ if slow_hook => {
             h.insert_source(SlowHook(Duration::from_millis(HOOK_MS)), |_, _, n| *n += 1).unwrap();
+        }
+        "expired-timer-removed-before-any-dispatch" => {
+            // the timer's deadline passes while the loop is not being dispatched; then it is removed: nothing of it may
+            // stay behind in the loop's timer bookkeeping
+            let t = h.insert_source(Timer::from_duration(Duration::from_millis(1)), |_, _, n| {
+                *n += 1;
+                TimeoutAction::Drop
+            })
+            .unwrap();
+            std::thread::sleep(Duration::from_millis(4));
+            h.remove(t);
+        }
+        "armed-timer-rearmed-into-the-past-then-removed" => {
+            let d = calloop::Dispatcher::new(Timer::from_duration(Duration::from_secs(5)), |_, _, n: &mut u32| {
+                *n += 1;
+                TimeoutAction::Drop
+            });
+            let t = h.register_dispatcher(d.clone()).unwrap();
+            std::thread::sleep(Duration::from_millis(2));
+            // (the deadline the timer was armed with is not the one it holds now)
+            d.as_source_mut().set_deadline(Instant::now().checked_sub(Duration::from_millis(1)).unwrap_or_else(Instant::now));
+            h.disable(&t).unwrap();
+            keep.push(Box::new(d));
         }
         "sync-channel-drained-exactly-at-its-bound" => {
             // a full bounded channel is emptied by one dispatch: nothing is left that could justify another wake-up
@@ -221,6 +244,7 @@ fn measure(c: &Cell_) -> Measured {
     // (the channel populations get exactly the dispatches their messages need: a wake-up the source makes up
     // for itself afterwards must show in the measured dispatch)
     let warm_n = match c.pop {
+        "expired-timer-removed-before-any-dispatch" | "armed-timer-rearmed-into-the-past-then-removed" => 0,
         "sync-channel-drained-exactly-at-its-bound" | "rendezvous-channel-after-refused-try_send" => 1,
         "channel-1024-messages-delivered" => 2,
         _ => 3,
